@@ -9,6 +9,7 @@ data layer defines the value (integer API, AES modes, GCM), equality with the sp
 """
 import copy
 import json
+import os
 import random
 from concurrent.futures import ThreadPoolExecutor
 
@@ -40,6 +41,8 @@ def pick(jobs, n, rnd):
 def run(ctx):
     quick = ctx.tier == "quick"
     rnd = random.Random(ctx.seed * 7919 + 16)
+    with ThreadPoolExecutor(max_workers=2) as ex:
+        list(ex.map(lambda m: c14.selftest([m]), ["BigInt", "AesAead"]))
     # ---- 1. the model: selection chain for all 8 environments and 16 AES switch/CPU combinations, and the jobs
     r = ctx.mc("Backends", "Backends_quick.cfg" if quick else "Backends_thorough.cfg", workers=4, timeout=900)
     envs = {p: json.loads(tlc.tla_string_to_py(p)) for p in set(r.prints("ENV"))}
@@ -58,7 +61,7 @@ def run(ctx):
             int_by_op.setdefault(j["op"], []).append(j)
     int_jobs = []
     for op in sorted(int_by_op):
-        n = (6, 150) if op in c14.HEAVY else (10, 300)
+        n = (6, 200) if op in c14.HEAVY else (10, 500)
         int_jobs += pick(int_by_op[op], n[0 if quick else 1], rnd)
     pk_jobs = sorted(by_fam["pk"] + by_fam["pkviol"], key=lambda j: (j["fam"], j["op"], j["idx"]))
     aes_jobs = []
@@ -104,7 +107,7 @@ def run(ctx):
                 merged[("pk", rec["k"])]["obs"] += rec["obs"]
     traces += list(merged.values())
     n_deep = 0
-    deep_cap = 150 if quick else 2500
+    deep_cap = 150 if quick else 4000
     order = list(range(len(aes_out["recs"])))
     rnd.shuffle(order)
     for i in order:
@@ -123,7 +126,11 @@ def run(ctx):
         t["tid"] = tid + 1
     traces.sort(key=lambda t: c14.est_cost(t) if t["fam"] == "int" else (len(t.get("data", [])) * 40 * t.get("deep", 0) * (16 if t.get("mode") == "cfb8" else 1)), reverse=True)
     # ---- 5. code -> spec
-    verdicts = ctx.validate("BackendsTrace", traces, family="backends", timeout=2400)
+    os.environ["JAVA_TOOL_OPTIONS"] = "-Xmx3g"          # 16 JVMs run side by side: keep their heaps bounded
+    verdicts = {}
+    nb = max(1, (len(traces) + 4999) // 5000)
+    for b in range(nb):
+        verdicts.update(ctx.validate("BackendsTrace", traces[b::nb], family="backends", timeout=2400))
     seen = {}
     notes = {}
     silent = {}
